@@ -946,22 +946,6 @@ func (c *kase) canon(o *obs) string {
 	sb.WriteString(" p=" + joinOr(";", pols))
 	var srvs []string
 	seen := map[string]bool{}
-	if c.ambiguous() {
-		// the redirect part of the result depends on Go's map iteration order for this
-		// config (Spec.ambiguous): only the order-independent part is compared
-		for i, s := range c.servers {
-			if os, ok := o.servers[s.name]; ok && !(s.name == reservedName) {
-				d := "0"
-				if os.disabled {
-					d = "1"
-				}
-				srvs = append(srvs, "s"+strconv.Itoa(i)+"/"+d+strconv.Itoa(os.tls))
-			} else {
-				srvs = append(srvs, "s"+strconv.Itoa(i)+"/~")
-			}
-		}
-		return "amb" + strings.TrimPrefix(sb.String(), "ok") + " s=" + joinOr(";", srvs)
-	}
 	for i, s := range c.servers {
 		seen[s.name] = true
 		if os, ok := o.servers[s.name]; ok {
